@@ -107,16 +107,7 @@ def run(R, tier):
         R.check(not bad, "R06.2", fn + ":absent", "no element: %s, nothing consumed" % ("-109 Missing parameter" if required else "Ok(None)"), "%s with no data element next: %s" % (fn, "; ".join(bad[:4])))
 
     # a failed conversion of a supplied element is the unit's error (never "absent", never dropped)
-    for fn in ("next_data", "next_optional_data"):
-        tb = D.params_table(fn)
-        for first in M.DATA:
-            ps = tb[(first, None)]
-            conv = [p for p in ps if any(n.endswith(("TryInto::try_into", "TryFrom::try_from")) for n in p.call_names)]
-            errs = [p for p in conv if p.outcome.startswith("Err(") and ("try_into" in repr(fdai.snapshot(p.r.retval)) or "try_from" in repr(fdai.snapshot(p.r.retval)))]
-            oks = [p for p in conv if p.outcome == "Ok" and ("try_into" in repr(fdai.snapshot(p.r.retval)) or "try_from" in repr(fdai.snapshot(p.r.retval)))]
-            tail = [p for p in conv if p.outcome in ("ret:try_into", "ret:try_from")]
-            good = len(conv) == len(ps) and ((errs and oks and len(errs) + len(oks) == len(ps)) or (tail and len(tail) == len(ps))) and all(p.consumed == [first] for p in ps)
-            R.check(good, "R06.4", "%s[%s]" % (fn, first), "the supplied element is converted; a conversion error is returned as the unit's error, success hands over the converted value", "%s must convert the supplied element and return a conversion failure as an error (not swallow it): %s" % (fn, "; ".join(p.describe() for p in ps)))
+    check_typed_pulls(R, "R06.4", M.DATA)
 
     # ---- R06.3 post-unit table --------------------------------------------------------------------------
     rt = D.run_tokens_table()
@@ -170,3 +161,18 @@ def run(R, tier):
     # ---- R06.9 whole messages: what each handler is handed, end to end -------------------------------------------------------------
     from . import msgtable as MT
     MT.check(R, "R06.9", "params", tier, "Node::run on whole messages: a handler pulling k required and j optional parameters is handed exactly the elements of its own unit (kind and payload bytes, strings / blocks / expressions with separators inside), -109 when a required one is missing, -108 when one is left over, and never an element of the next unit", 300)
+
+
+def check_typed_pulls(R, rule, kinds):
+    """Parameters::next_data / next_optional_data on a supplied element of each kind: the element is converted, a conversion
+    error is the result (never `absent`, never dropped), success hands over the converted value (shared with C07's R07.10)"""
+    for fn in ("next_data", "next_optional_data"):
+        tb = D.params_table(fn)
+        for first in kinds:
+            ps = tb[(first, None)]
+            conv = [p for p in ps if any(n.endswith(("TryInto::try_into", "TryFrom::try_from")) for n in p.call_names)]
+            errs = [p for p in conv if p.outcome.startswith("Err(") and ("try_into" in repr(fdai.snapshot(p.r.retval)) or "try_from" in repr(fdai.snapshot(p.r.retval)))]
+            oks = [p for p in conv if p.outcome == "Ok" and ("try_into" in repr(fdai.snapshot(p.r.retval)) or "try_from" in repr(fdai.snapshot(p.r.retval)))]
+            tail = [p for p in conv if p.outcome in ("ret:try_into", "ret:try_from")]
+            good = len(conv) == len(ps) and ((errs and oks and len(errs) + len(oks) == len(ps)) or (tail and len(tail) == len(ps))) and all(p.consumed == [first] for p in ps)
+            R.check(good, rule, "%s[%s]" % (fn, first), "the supplied element is converted; a conversion error is returned as the unit's error, success hands over the converted value", "%s must convert the supplied element and return a conversion failure as an error (not swallow it): %s" % (fn, "; ".join(p.describe() for p in ps)))
